@@ -277,6 +277,32 @@ func RunProp(t *testing.T, p *Prop) {
 	}
 
 	defer st.write()
+	// saved regression cases first (shard 0 only): plain Run, no rapid
+	if dir := os.Getenv("VERIF_CORPUS"); dir != "" && shard == 0 {
+		files, _ := filepath.Glob(filepath.Join(dir, p.Name, "*.json"))
+		sort.Strings(files)
+		for _, f := range files {
+			b, err := os.ReadFile(f)
+			if err != nil {
+				continue
+			}
+			var rec struct {
+				Case json.RawMessage `json:"case"`
+			}
+			c := p.New()
+			if json.Unmarshal(b, &rec) != nil || len(rec.Case) == 0 || json.Unmarshal(rec.Case, c) != nil {
+				t.Fatalf("corpus file %s is not a case", f)
+			}
+			out := exec.run(c)
+			out.Labels = append(out.Labels, "corpus")
+			st.record(c, out)
+			if out.Violation != "" {
+				st.Violations = append(st.Violations, ViolationRec{Message: "regression case " + filepath.Base(f) + ": " + out.Violation, Case: mustJSON(c)})
+				st.Completed = true
+				t.Fatalf("VIOLATION property=%s (corpus %s): %s", p.ID, f, out.Violation)
+			}
+		}
+	}
 	curPath := ""
 	if d := outDir(); d != "" {
 		curPath = filepath.Join(d, fmt.Sprintf("%s.%d.current.json", p.Name, shard))
